@@ -40,7 +40,7 @@ Definition fkey := (str * Z * Z)%type.
 Definition key_of (f : frag) : fkey := (f_name f, f_start f, f_end f).
 Definition key_eqb (a b : fkey) : bool :=
   let '(n1, s1, e1) := a in let '(n2, s2, e2) := b in
-  str_eqb n1 n2 && (s1 =? s2) && (e1 =? e2).
+  if s1 =? s2 then if e1 =? e2 then str_eqb n1 n2 else false else false.
 
 (* Fragment.__eq__ *)
 Definition frag_eqb (a b : frag) : bool :=
@@ -103,12 +103,14 @@ Definition junction_tuple (a b : frag) : res junction :=
   else Err ValueError.
 
 Definition junction_eqb (a b : junction) : bool :=
+  (* coordinates first, names last, each test only if the previous held
+     (cheap rejection under call-by-value evaluation) *)
   match a, b with
   | JSISI n1 p1 n2 p2, JSISI m1 q1 m2 q2 =>
-      str_eqb n1 m1 && (p1 =? q1) && str_eqb n2 m2 && (p2 =? q2)
+      if p1 =? q1 then if p2 =? q2 then if str_eqb n1 m1 then str_eqb n2 m2 else false else false else false
   | JSIIS n1 p1 p2 n2, JSIIS m1 q1 q2 m2 =>
-      str_eqb n1 m1 && (p1 =? q1) && (p2 =? q2) && str_eqb n2 m2
+      if p1 =? q1 then if p2 =? q2 then if str_eqb n1 m1 then str_eqb n2 m2 else false else false else false
   | JISSI p1 n1 n2 p2, JISSI q1 m1 m2 q2 =>
-      (p1 =? q1) && str_eqb n1 m1 && str_eqb n2 m2 && (p2 =? q2)
+      if p1 =? q1 then if p2 =? q2 then if str_eqb n1 m1 then str_eqb n2 m2 else false else false else false
   | _, _ => false
   end.
